@@ -142,7 +142,7 @@ _add("s.lor.op| s.lor.op|=", "lor", "lor", "2s", 1, 2)
 _add("s.lxor.op^ s.lxor.op^=", "lxor", "lxor", "2s", 1, 2)
 _add("s.land.op& s.land.op&=", "land", "land", "2s", 1, 2)
 _add("s.shl.op<< s.shl.op<<=", "shl", "shl", "sh64", 1, 2)
-_add("s.shr.op>> s.shr.op>>=", "shr", "sshr", "sh64s", 1, 2)
+_add("s.shr.op>> s.shr.op>>=", "sshr", "sshr", "sh64s", 1, 2)
 _add("s.sign", None, "ssign", "1s", 2, 2)
 _add("s.div_q.qab s.div_q.op/ s.div_q.op/=", "sdiv_q", "sdiv_q", "sdiv", 1, 2)
 _add("s.div_r.rab s.div_r.op% s.div_r.op%=", "sdiv_r", "sdiv_r", "sdivr", 1, 2)
@@ -160,8 +160,7 @@ _add("s.add_w.u64", None, "add_w1", "1sw", 1, 2)
 _add("s.sub_w.i64", None, "sub_w1", "1sw63", 1, 2)
 _add("s.sub_w.op-=", None, "ssub_si", "1ssi", 1, 2)
 _add("s.sub_w.u64", None, "sub_w1", "1sw", 1, 2)
-_add("s.mul_w.abc", None, "smul_si", "1sw63", 1, 2)
-_add("s.mul_w.op* s.mul_w.op*r s.mul_w.op*=", None, "smul_si", "1ssi", 1, 2)
+_add("s.mul_w.abc s.mul_w.op* s.mul_w.op*r s.mul_w.op*=", None, "smul_si", "1ssi", 1, 2)
 _add("s.mod_n.a", None, "smod_n1", "smodn1", 1, 2)
 _add("s.mod_n.abn", "smod_n", "smod_n", "smodn", 1, 2, flags="w")
 _add("s.inv_mod", "sinv_mod", "sinv_mod", "sinv", 1, 2, flags="heavy")
